@@ -125,8 +125,22 @@ def _days_of_year(y, r, dtstart):
         days = restrict(days, sel)
     if r.byday:
         if r.byyearday or r.bymonthday:
-            # limit (ordinals make no sense here; take the weekday)
-            days = [x for x in days if any(x.weekday() == w for _, w in r.byday)]
+            # limit: a plain weekday admits every such day; a numbered one (RFC 5545 3.3.10, BYDAY) the n-th such weekday
+            # of the month when BYMONTH is given, of the year otherwise
+            sel = set()
+            if r.bymonth:
+                for m in range(1, 13):
+                    sel |= _month_bydays(y, m, r.byday)
+            else:
+                for o, w in r.byday:
+                    cands = [x for x in alldays if x.weekday() == w]
+                    if o == 0:
+                        sel |= set(cands)
+                    else:
+                        k = _pick(o, len(cands))
+                        if k is not None:
+                            sel.add(cands[k - 1])
+            days = [x for x in days if x in sel]
         elif r.byweekno:
             days = [x for x in days if any(x.weekday() == w for _, w in r.byday)]
         elif r.bymonth:
@@ -178,7 +192,9 @@ def _days_of_month(y, m, r, dtstart):
     if r.bymonthday:
         days = [x for x in days if any(_pick(n, mlen(y, m)) == x.day for n in r.bymonthday)]
         if r.byday:
-            days = [x for x in days if any(x.weekday() == w for _, w in r.byday)]
+            # limit; a numbered weekday means the n-th one of the month
+            sel = _month_bydays(y, m, r.byday)
+            days = [x for x in days if x in sel]
     else:
         sel = _month_bydays(y, m, r.byday)
         days = [x for x in days if x in sel]
